@@ -4,6 +4,8 @@ import (
 	"context"
 	"errors"
 	"fmt"
+	"math"
+	"math/bits"
 
 	"go.etcd.io/bbolt"
 )
@@ -113,9 +115,36 @@ func (p *PPM) Value() int64 {
 	return p.ppmValue
 }
 
-// Compute calculates the premium in satoshis for a given amount in satoshis.
+// Compute calculates the premium in satoshis for a given amount in satoshis:
+// amtSat * ppm / 1e6, truncated toward zero. The product is formed in 128 bits
+// so it cannot wrap around. A result that does not fit into an int64 saturates
+// at math.MaxInt64 or math.MinInt64.
 func (p *PPM) Compute(amtSat uint64) (sat int64) {
-	return int64(amtSat) * p.ppmValue / premiumRateParts
+	negative := p.ppmValue < 0
+	ppmAbs := uint64(p.ppmValue)
+	if negative {
+		ppmAbs = -ppmAbs
+	}
+	hi, lo := bits.Mul64(amtSat, ppmAbs)
+	if hi == 0 && lo <= math.MaxInt64 {
+		// The product fits into an int64, plain arithmetic is exact.
+		return int64(amtSat) * p.ppmValue / premiumRateParts
+	}
+	// Divide the 128-bit magnitude, then restore the sign.
+	quo := uint64(math.MaxUint64)
+	if hi < premiumRateParts {
+		quo, _ = bits.Div64(hi, lo, premiumRateParts)
+	}
+	if negative {
+		if quo >= 1<<63 {
+			return math.MinInt64
+		}
+		return -int64(quo)
+	}
+	if quo > math.MaxInt64 {
+		return math.MaxInt64
+	}
+	return int64(quo)
 }
 
 // Premium rate operations
